@@ -23,6 +23,9 @@ pub struct ParserOpts {
     pub warnings_are_errors: Option<bool>,
     pub show_warnings: Option<bool>,
     pub serialisation_format: Option<String>,
+    /// the builders' storage type parameter: "u8" | "u16" | "u32" (None = u32)
+    #[serde(default)]
+    pub storaget: Option<String>,
 }
 
 #[derive(Serialize, Deserialize, Clone, Debug, PartialEq, Eq, PartialOrd, Ord, Default)]
@@ -156,101 +159,117 @@ pub fn main(spec_path: &str, result_path: &str) -> i32 {
     0
 }
 
-fn config_parser<'a>(mut ctp: lrpar::CTParserBuilder<'a, DefaultLexerTypes<u32>>, p: &ParserOpts, gpath: &PathBuf, pout: &PathBuf) -> lrpar::CTParserBuilder<'a, DefaultLexerTypes<u32>> {
-    ctp = ctp.grammar_path(gpath).output_path(pout);
-    if let Some(k) = p.yacckind.as_deref().and_then(yacckind_of) {
-        ctp = ctp.yacckind(k);
-    }
-    if let Some(r) = &p.recoverer {
-        ctp = ctp.recoverer(if r == "None" { RecoveryKind::None } else { RecoveryKind::CPCTPlus });
-    }
-    if let Some(v) = &p.visibility {
-        ctp = ctp.visibility(vis_of(v));
-    }
-    if let Some(v) = &p.rust_edition {
-        ctp = ctp.rust_edition(ed_of(v));
-    }
-    if let Some(v) = &p.mod_name {
-        // the builder borrows the name; leak it (one build per process)
-        ctp = ctp.mod_name(Box::leak(v.clone().into_boxed_str()));
-    }
-    if let Some(v) = p.error_on_conflicts {
-        ctp = ctp.error_on_conflicts(v);
-    }
-    if let Some(v) = p.warnings_are_errors {
-        ctp = ctp.warnings_are_errors(v);
-    }
-    ctp = ctp.show_warnings(p.show_warnings.unwrap_or(false));
-    if let Some(v) = &p.serialisation_format {
-        ctp = ctp.serialisation_format(if v == "FixedSizeInteger" { SerialisationFormat::FixedSizeInteger } else { SerialisationFormat::VariableSizedInteger });
-    }
-    ctp
+macro_rules! impl_build {
+    ($cfg:ident, $run:ident, $t:ty) => {
+        fn $cfg<'a>(mut ctp: lrpar::CTParserBuilder<'a, DefaultLexerTypes<$t>>, p: &ParserOpts, gpath: &PathBuf, pout: &PathBuf) -> lrpar::CTParserBuilder<'a, DefaultLexerTypes<$t>> {
+            ctp = ctp.grammar_path(gpath).output_path(pout);
+            if let Some(k) = p.yacckind.as_deref().and_then(yacckind_of) {
+                ctp = ctp.yacckind(k);
+            }
+            if let Some(r) = &p.recoverer {
+                ctp = ctp.recoverer(if r == "None" { RecoveryKind::None } else { RecoveryKind::CPCTPlus });
+            }
+            if let Some(v) = &p.visibility {
+                ctp = ctp.visibility(vis_of(v));
+            }
+            if let Some(v) = &p.rust_edition {
+                ctp = ctp.rust_edition(ed_of(v));
+            }
+            if let Some(v) = &p.mod_name {
+                // the builder borrows the name; leak it (one build per process)
+                ctp = ctp.mod_name(Box::leak(v.clone().into_boxed_str()));
+            }
+            if let Some(v) = p.error_on_conflicts {
+                ctp = ctp.error_on_conflicts(v);
+            }
+            if let Some(v) = p.warnings_are_errors {
+                ctp = ctp.warnings_are_errors(v);
+            }
+            ctp = ctp.show_warnings(p.show_warnings.unwrap_or(false));
+            if let Some(v) = &p.serialisation_format {
+                ctp = ctp.serialisation_format(if v == "FixedSizeInteger" { SerialisationFormat::FixedSizeInteger } else { SerialisationFormat::VariableSizedInteger });
+            }
+            ctp
+        }
+
+        fn $run(spec: &BuildSpec) -> Result<Option<bool>, String> {
+            let p = spec.parser.clone();
+            let gpath = PathBuf::from(&spec.grammar_path);
+            let pout = PathBuf::from(&spec.parser_out);
+            let mut lb = CTLexerBuilder::<DefaultLexerTypes<$t>>::new_with_lexemet()
+                .lexer_path(&spec.lexer_path)
+                .output_path(&spec.lexer_out);
+            let l = &spec.lexer;
+            if let Some(v) = &l.visibility {
+                lb = lb.visibility(lvis_of(v));
+            }
+            if let Some(v) = &l.rust_edition {
+                lb = lb.rust_edition(led_of(v));
+            }
+            if let Some(v) = &l.mod_name {
+                lb = lb.mod_name(v);
+            }
+            if let Some(v) = l.allow_missing_terms_in_lexer {
+                lb = lb.allow_missing_terms_in_lexer(v);
+            }
+            if let Some(v) = l.allow_missing_tokens_in_parser {
+                lb = lb.allow_missing_tokens_in_parser(v);
+            }
+            if let Some(v) = l.case_insensitive {
+                lb = lb.case_insensitive(v);
+            }
+            if let Some(v) = l.dot_matches_new_line {
+                lb = lb.dot_matches_new_line(v);
+            }
+            if let Some(v) = l.warnings_are_errors {
+                lb = lb.warnings_are_errors(v);
+            }
+            for (k, v) in &l.extra {
+                let f = v == "true";
+                let n: u64 = v.parse().unwrap_or(0);
+                lb = match k.as_str() {
+                    "allow_wholeline_comments" => lb.allow_wholeline_comments(f),
+                    "multi_line" => lb.multi_line(f),
+                    "posix_escapes" => lb.posix_escapes(f),
+                    "octal" => lb.octal(f),
+                    "swap_greed" => lb.swap_greed(f),
+                    "ignore_whitespace" => lb.ignore_whitespace(f),
+                    "unicode" => lb.unicode(f),
+                    "size_limit" => lb.size_limit(n as usize),
+                    "dfa_size_limit" => lb.dfa_size_limit(n as usize),
+                    "nest_limit" => lb.nest_limit(n as u32),
+                    _ => lb,
+                };
+            }
+            lb = lb.show_warnings(false);
+            let mut reported = None;
+            if spec.flow == "two-step" {
+                let ctp = $cfg(lrpar::CTParserBuilder::<DefaultLexerTypes<$t>>::new(), &p, &gpath, &pout);
+                let cp = ctp.build().map_err(|e| e.to_string())?;
+                reported = Some(cp.regenerated());
+                lb = lb.rule_ids_map(cp.token_map().to_owned());
+                let _ctlexer = lb.build().map_err(|e| e.to_string())?;
+            } else {
+                let (p2, g2, o2) = (p.clone(), gpath.clone(), pout.clone());
+                let lb = lb.lrpar_config(move |ctp| $cfg(ctp, &p2, &g2, &o2));
+                let _ctlexer = lb.build().map_err(|e| e.to_string())?;
+            }
+            Ok(reported)
+        }
+    };
 }
+impl_build!(config_parser_u8, run_u8, u8);
+impl_build!(config_parser_u16, run_u16, u16);
+impl_build!(config_parser_u32, run_u32, u32);
 
 fn run(spec: &BuildSpec) -> Result<(bool, Option<bool>), String> {
-    let p = spec.parser.clone();
-    let gpath = PathBuf::from(&spec.grammar_path);
-    let pout = PathBuf::from(&spec.parser_out);
-    let mut lb = CTLexerBuilder::<DefaultLexerTypes<u32>>::new()
-        .lexer_path(&spec.lexer_path)
-        .output_path(&spec.lexer_out);
-    let l = &spec.lexer;
-    if let Some(v) = &l.visibility {
-        lb = lb.visibility(lvis_of(v));
-    }
-    if let Some(v) = &l.rust_edition {
-        lb = lb.rust_edition(led_of(v));
-    }
-    if let Some(v) = &l.mod_name {
-        lb = lb.mod_name(v);
-    }
-    if let Some(v) = l.allow_missing_terms_in_lexer {
-        lb = lb.allow_missing_terms_in_lexer(v);
-    }
-    if let Some(v) = l.allow_missing_tokens_in_parser {
-        lb = lb.allow_missing_tokens_in_parser(v);
-    }
-    if let Some(v) = l.case_insensitive {
-        lb = lb.case_insensitive(v);
-    }
-    if let Some(v) = l.dot_matches_new_line {
-        lb = lb.dot_matches_new_line(v);
-    }
-    if let Some(v) = l.warnings_are_errors {
-        lb = lb.warnings_are_errors(v);
-    }
-    for (k, v) in &l.extra {
-        let f = v == "true";
-        let n: u64 = v.parse().unwrap_or(0);
-        lb = match k.as_str() {
-            "allow_wholeline_comments" => lb.allow_wholeline_comments(f),
-            "multi_line" => lb.multi_line(f),
-            "posix_escapes" => lb.posix_escapes(f),
-            "octal" => lb.octal(f),
-            "swap_greed" => lb.swap_greed(f),
-            "ignore_whitespace" => lb.ignore_whitespace(f),
-            "unicode" => lb.unicode(f),
-            "size_limit" => lb.size_limit(n as usize),
-            "dfa_size_limit" => lb.dfa_size_limit(n as usize),
-            "nest_limit" => lb.nest_limit(n as u32),
-            _ => lb,
-        };
-    }
-    lb = lb.show_warnings(false);
     let before_parser = std::fs::metadata(&spec.parser_out).ok().and_then(|m| m.modified().ok());
     let before_content = std::fs::read(&spec.parser_out).ok();
-    let mut reported = None;
-    if spec.flow == "two-step" {
-        let ctp = config_parser(lrpar::CTParserBuilder::<DefaultLexerTypes<u32>>::new(), &p, &gpath, &pout);
-        let cp = ctp.build().map_err(|e| e.to_string())?;
-        reported = Some(cp.regenerated());
-        lb = lb.rule_ids_map(cp.token_map().to_owned());
-        let _ctlexer = lb.build().map_err(|e| e.to_string())?;
-    } else {
-        let (p2, g2, o2) = (p.clone(), gpath.clone(), pout.clone());
-        let lb = lb.lrpar_config(move |ctp| config_parser(ctp, &p2, &g2, &o2));
-        let _ctlexer = lb.build().map_err(|e| e.to_string())?;
-    }
+    let reported = match spec.parser.storaget.as_deref() {
+        Some("u8") => run_u8(spec)?,
+        Some("u16") => run_u16(spec)?,
+        _ => run_u32(spec)?,
+    };
     // Was the parser output rewritten? (mtime or content changed, or newly created)
     let after_parser = std::fs::metadata(&spec.parser_out).ok().and_then(|m| m.modified().ok());
     let after_content = std::fs::read(&spec.parser_out).ok();
